@@ -14,7 +14,7 @@ CONFIG = {
         "cmbbs.PasswdInit of a starting server process is modelled as the identity on the shared state (Model procInit); that the real one is, is what the `init` schedule elements test, not a theorem about its source",
         "which of several waiters the kernel wakes is observed by the harness (the first to report reg.afterLock) and written into the schedule as an explicit wake element; 'blocked in semop' is observed through semctl(GETNCNT) and, when the kernel does not confirm it within 100 ms, assumed (then a thread that was not blocked contradicts the model with its next report)",
     ],
-    "modelled": ["ptt.tryCleanUser/checkAndExpireAccount/killUser (one expirable slot: index write or not, zero-record write)", "ptt.NewRegister (as: build the request's own record, then SetupNewUser; what follows SetupNewUser — InitCurrentUser, home directory, justify — is not modelled)", "ptt.SetupNewUser", "cmbbs.PasswdLock/PasswdUnlock", "cmbbs.PasswdInit (on an existing semaphore)", "cache.DoSearchUserRaw/SetUserID (abstractly: the id table)", "passwdSyncUpdate (abstractly: the record's id)"],
+    "modelled": ["ptt.tryCleanUser/checkAndExpireAccount/killUser (one expirable slot: index write or not, zero-record write)", "ptt.Register (as: NewRegister, then steps without effect on index/.PASSWDS)", "ptt.NewRegister (as: build the request's own record, then SetupNewUser; what follows SetupNewUser — InitCurrentUser, home directory, justify — is not modelled)", "ptt.SetupNewUser", "cmbbs.PasswdLock/PasswdUnlock", "cmbbs.PasswdInit (on an existing semaphore)", "cache.DoSearchUserRaw/SetUserID (abstractly: the id table)", "passwdSyncUpdate (abstractly: the record's id)"],
     "assumptions": ["account expiry (tryCleanUser) only in the `expiry` family, one expirable account per history; elsewhere every account is unexpirable",
                     "the source's present clean-up zeroes the record of an expired account and leaves its id in the index: reported, not judged by C15", "the index itself behaves as a map (property C04)",
                     "server processes of the driven histories attach an already loaded shared-memory segment (IS_NEW_SHM = false); a server that reloads the index while registrations run is outside the model"],
